@@ -65,11 +65,24 @@ class QCircuitEnhanced(QCircuit):
 
     def remove_identities(self):
         """Remove identities from the circuit"""
+
+        def self_inverse(g):
+            """True if applying the gate twice is the identity (S, T, P, CP and the gates
+            controlling them are not: the same applied gate twice is not an identity)"""
+            if isinstance(g, gates.QControlledGate):
+                return self_inverse(g.gate)
+            return isinstance(
+                g, (gates.X, gates.Y, gates.Z, gates.H, gates.I, gates.Swap)
+            )
+
         result: List[gates.AppliedGate] = []
         i = 0
         len_g = len(self.gates)  # type: ignore
         while i < len_g:
-            if i < (len_g - 1) and self.gates[i] == self.gates[i + 1]:  # type: ignore
+            if not self_inverse(self.gates[i][0]):  # type: ignore
+                result.append(self.gates[i])  # type: ignore
+                i += 1
+            elif i < (len_g - 1) and self.gates[i] == self.gates[i + 1]:  # type: ignore
                 if len(result) > 0 and isinstance(result[-1][0], gates.Barrier):
                     result.pop()
                 i += 2
